@@ -416,6 +416,12 @@ def _execute(case):
             if r.last_fault is None:
                 # the failure was swallowed: the transaction must then be fully committed
                 out.label('fault-swallowed')
+                if r.committed != n_before and any(k_ == 'fsync' and p_.endswith('Data.fs') for k_, p_ in plan.hits):
+                    # the commit returned although forcing the data file to stable storage had failed: nothing says
+                    # the transaction is durable (C01: "all its writes were flushed and synced before the commit call returned")
+                    out.fail((PROPERTY, 'durability', 'fsync-failure-swallowed'),
+                             '%s: tpc_finish returned normally although the fsync of the data file failed' % where)
+                    break
                 if r.committed == n_before:
                     # not committed and no error: e.g. conflict path; treat as interrupted
                     after_interruption(d, r, before, where, n)
